@@ -49,9 +49,11 @@ type exp1 struct {
 	MustSecure bool   `json:"client_requires_security"`
 	Insecure   bool   `json:"client_insecure_flag"`
 	UDPSecret  bool   `json:"udp_shared_secret"` // packets AES-encrypted with a shared secret: still not a "secure" carrier
-	Pre        int    `json:"padding_before"`
-	Post       int    `json:"padding_after"`
-	Key        uint64 `json:"key"`
+	// ClientScheme: the upstream address uses the other documented spelling of its scheme (ws for http, wss for https)
+	ClientScheme string `json:"upstream_scheme_spelling,omitempty"`
+	Pre          int    `json:"padding_before"`
+	Post         int    `json:"padding_after"`
+	Key          uint64 `json:"key"`
 }
 
 func carrierEncrypted(c string) bool {
@@ -63,7 +65,7 @@ func runExp1(d exp1) (problem string, inconclusive bool) {
 	defer tgt.Close()
 	pki := vlib.GetPKI()
 	cfg := vlib.PairConfig{Carrier: d.Carrier, ClientInsecure: d.Insecure, MustSecure: d.MustSecure, ViaRelay: true,
-		ClientCA: pki.CA.CertPEM, HostSpelling: "localhost",
+		ClientCA: pki.CA.CertPEM, HostSpelling: "localhost", ClientScheme: d.ClientScheme,
 		Channels:  []vlib.ChannelSpec{{Name: "data", Target: tgt.URL()}},
 		Listeners: []vlib.ListenerSpec{{Channel: "data"}}}
 	if d.UDPSecret {
@@ -177,6 +179,12 @@ func exp1Matrix(withDNS bool) []exp1 {
 					out = append(out, exp1{Carrier: car, ServerCert: sc, MustSecure: ms, Insecure: ins})
 					if car == vlib.CarUDP {
 						out = append(out, exp1{Carrier: car, ServerCert: sc, MustSecure: ms, Insecure: ins, UDPSecret: true})
+					}
+					if car == vlib.CarHTTP {
+						out = append(out, exp1{Carrier: car, ServerCert: sc, MustSecure: ms, Insecure: ins, ClientScheme: "ws"})
+					}
+					if car == vlib.CarHTTPS {
+						out = append(out, exp1{Carrier: car, ServerCert: sc, MustSecure: ms, Insecure: ins, ClientScheme: "wss"})
 					}
 				}
 			}
